@@ -3,16 +3,19 @@
 Decided by TLC: spec/func/FrameMachine.tla is an abstract stack machine (symbolic register values, concrete SP, cell
 memory) that EXECUTES the prolog and epilog the real asmjit emitted for a configuration, with one arbitrary-body step in
 between, for every entry-SP residue the convention allows; the property's invariants are evaluated in every state
-(spec/func/FrameTrace.tla).  The configurations come from spec/func/FrameConfigs.tla (TLC enumerates the cross product
-of the tier's profile and simulates the wide profile) plus the harness' own seeded random sampler.
+(spec/func/FrameTrace.tla).  A configuration is environment x convention x a SEQUENCE of FuncFrame setter calls; what the
+sequence promises to the body (set_* assigns, update_* takes the maximum, ...) is derived in FrameMachine.tla (Eff), the
+harness only executes the calls.  The configurations come from spec/func/FrameConfigs.tla (TLC enumerates the cross product
+of the tier's value profile with two call orders, the "orders" profile with EVERY order of the four stack setters and every
+set/update shape, and simulates the wide profile), from the harness' seeded random sampler (random merges of random call
+chains) and from frames the Compiler derives itself (BaseRAPass::update_stack_frame) for functions with invoke nodes.
 """
 import concurrent.futures, json, math, os, re
 import vlib
 from vlib import Broken
 
 SPEC = os.path.join(vlib.VERIF, "spec", "func")
-FIELDS = ["env", "cc", "d_gp", "d_vec", "d_k", "d_mm", "ls", "la", "cs", "ca", "fp", "avx", "mmx", "avxc", "nargs", "sa",
-          "calls", "ibt", "cp_vec", "cp_k", "cp_mm"]
+FIELDS = ["env", "cc", "nargs", "cp_vec", "cp_k", "cp_mm", "ops"]
 
 MAX_CONFIRM = 10         # strict confirmations (one JVM each) of failure groups not listed in KNOWN_FINDINGS
 
@@ -27,10 +30,42 @@ KNOWN_MNEMONICS = {
 
 def tuple_to_cfg(t):
     d = dict(zip(FIELDS, t))
-    return {"env": d["env"], "cc": d["cc"], "d": [d["d_gp"], d["d_vec"], d["d_k"], d["d_mm"]],
-            "ls": d["ls"], "la": d["la"], "cs": d["cs"], "ca": d["ca"], "fp": d["fp"], "avx": d["avx"], "mmx": d["mmx"],
-            "avxc": d["avxc"], "nargs": d["nargs"], "sa": d["sa"], "calls": d["calls"], "ibt": d["ibt"],
-            "cp": [[], d["cp_vec"], d["cp_k"], d["cp_mm"]]}
+    return {"env": d["env"], "cc": d["cc"], "src": "spec", "nargs": d["nargs"], "cp": [[], d["cp_vec"], d["cp_k"], d["cp_mm"]],
+            "ops": [{"op": o[0], "a": o[1], "g": o[2], "ids": o[3]} for o in d["ops"]]}
+
+
+def eff(cfg):
+    """Mirror of FrameMachine!Eff - used ONLY to name failure groups and to print diagnostics, never for a verdict."""
+    e = {"ls": 0, "la": 0, "cs": 0, "ca": 0, "fp": 0, "calls": 0, "sa": 255, "d": [set(), set(), set(), set()]}
+    for o in cfg["ops"]:
+        n = o["op"]
+        if n[:4] == "set_" and n[4:] in ("ls", "la", "cs", "ca"):
+            e[n[4:]] = o["a"]
+        elif n[:7] == "update_":
+            e[n[7:]] = max(e[n[7:]], o["a"])
+        elif n == "add_dirty":
+            e["d"][o["g"]] |= set(o["ids"])
+        elif n == "set_dirty":
+            e["d"][o["g"]] = set(o["ids"])
+        elif n in ("set_fp", "reset_fp"):
+            e["fp"] = int(n == "set_fp")
+        elif n in ("set_calls", "reset_calls"):
+            e["calls"] = int(n == "set_calls")
+        elif n == "set_sa":
+            e["sa"] = o["a"]
+        elif n == "reset_sa":
+            e["sa"] = 255
+    return e
+
+
+def order_of(cfg):
+    """the order in which the four stack setter families are first called, e.g. 'ca>cs>la>ls' (diagnostics/keys)"""
+    seen = []
+    for o in cfg["ops"]:
+        x = o["op"].split("_", 1)[1]
+        if x in ("ls", "la", "cs", "ca") and x not in seen:
+            seen.append(x)
+    return ">".join(seen) or "-"
 
 
 def write_cfg(ctx, name, profile):
@@ -40,24 +75,27 @@ def write_cfg(ctx, name, profile):
 
 
 def enumerate_configs(ctx):
-    """TLC states the explored space: exhaustive product of the tier's profile + simulated draws of the wide one."""
+    """TLC states the explored space: exhaustive product of the tier's value profile (two call orders), the orders profile
+    (every order of the four stack setters x every set/update shape) + simulated draws of the wide profile."""
     q = ctx.quick
     mod = os.path.join(SPEC, "FrameConfigs.tla")
-    r = vlib.run_tlc(ctx, mod, write_cfg(ctx, "cfg_enum.cfg", "quick" if q else "thorough"), workers=4, timeout=1500,
-                     heap=("2g" if q else "6g"), tag="cfgenum")
-    vlib.tlc_must_ok(ctx, r, "FrameConfigs exhaustive")
-    tuples = vlib.parse_beh(r.out, tag="CFG")
+    tuples = []
+    for prof in (("quick", "orders") if q else ("thorough", "orders_thorough")):
+        r = vlib.run_tlc(ctx, mod, write_cfg(ctx, f"cfg_{prof}.cfg", prof), workers=4, timeout=1500,
+                         heap=("2g" if q else "6g"), tag="cfg" + prof)
+        vlib.tlc_must_ok(ctx, r, "FrameConfigs " + prof)
+        t = vlib.parse_beh(r.out, tag="CFG")
+        if not t:
+            raise Broken(f"FrameConfigs ({prof}) printed no configuration")
+        ctx.extra["configs_" + prof] = len(t)
+        tuples += t
     n_exh = len(tuples)
-    if n_exh == 0:
-        raise Broken("FrameConfigs printed no configuration")
     nsim = 1200 if q else 24000
     r = vlib.run_tlc(ctx, mod, write_cfg(ctx, "cfg_sim.cfg", "wide"), workers=4, timeout=1500, heap="2g", tag="cfgsim",
-                     simulate=nsim // 8, depth=16, seed=ctx.seed)
+                     simulate=nsim // 4, depth=18, seed=ctx.seed)
     if r.kind != "ok":
         raise Broken("FrameConfigs simulation failed: " + r.out[-800:])
     sim = vlib.parse_beh(r.out, tag="CFG")
-    ctx.log(f"configurations: {n_exh} enumerated (profile {'quick' if q else 'thorough'}), {len(sim)} simulated (profile wide)")
-    ctx.extra["configs_enumerated"] = n_exh
     ctx.extra["configs_simulated"] = len(sim)
     seen, out = set(), []
     for t in tuples + sim:
@@ -67,6 +105,8 @@ def enumerate_configs(ctx):
         if k not in seen:
             seen.add(k)
             out.append(tuple_to_cfg(t))
+    ctx.log(f"configurations: {n_exh} enumerated ({'quick+orders' if q else 'thorough+orders_thorough'}), {len(sim)} simulated (wide), "
+            f"{len(out)} distinct setter sequences")
     return out
 
 
@@ -99,9 +139,10 @@ def signature(o, inv, lost):
     (and, for SavedRestored, on which register groups were lost); everything else gets a generic key that spells out
     every feature selecting a code path in finalize/emit_prolog/emit_epilog."""
     c, fr = o["cfg"], o["fr"]
+    e = eff(c)
     arch = arch_of(o)
     light = c["cc"].startswith("lightcall")
-    promised = max(c["la"], c["ca"])
+    promised = max(e["la"], e["ca"])
     lost_groups = sorted({g for g, _ in lost})
     saved = fr["saved"]
     if arch == "x86" and not light and not fr["has_da"] and promised == 8 and inv == "AlignedInBody":
@@ -121,8 +162,9 @@ def signature(o, inv, lost):
         return "Accepted:a64:lightcall-save-area-exceeds-index-range"
     # generic: invariant + everything that selects a code path in finalize/emit_prolog/emit_epilog
     ex = "".join(n for n, g in (("v", 1), ("k", 2), ("m", 3)) if saved[g])
-    return (f"{inv}:{c['env']}:{c['cc']}:fp{c['fp']}:da{int(fr['has_da'])}:ex{ex or '-'}:pp{len(saved[0])}"
-            f":ls{c['ls']}:la{c['la']}:cs{c['cs']}:ca{c['ca']}:sa{c['sa']}:args{c['nargs']}:lost{'.'.join(map(str, lost_groups)) or '-'}")
+    return (f"{inv}:{c['env']}:{c['cc']}:fp{e['fp']}:da{int(fr['has_da'])}:ex{ex or '-'}:pp{len(saved[0])}"
+            f":ls{e['ls']}:la{e['la']}:cs{e['cs']}:ca{e['ca']}:sa{e['sa']}:args{c['nargs']}:order{order_of(c)}:{c.get('src', 'spec')}"
+            f":lost{'.'.join(map(str, lost_groups)) or '-'}")
 
 
 def describe(o):
@@ -136,11 +178,22 @@ def describe(o):
             else:
                 ops.append(str(x["off"]))
         return i["m"] + " " + ",".join(ops)
-    return {"cfg": o["cfg"], "prolog": [ins(i) for i in o["pro"]], "epilog": [ins(i) for i in o["epi"]],
+    c = o["cfg"]
+    e = eff(c)
+    calls = [x["op"] + "(" + (",".join(map(str, x["ids"])) if x["op"].endswith("dirty") else str(x["a"])) + ")" for x in c["ops"]]
+    cfg = {"env": c["env"], "cc": c["cc"], "src": c.get("src", "spec"), "nargs": c["nargs"], "cp": c["cp"], "calls": calls,
+           "promised": {k: e[k] for k in ("ls", "la", "cs", "ca", "fp", "calls")}}
+    if "callee" in c:
+        cfg["callee"] = c["callee"]
+    return {"cfg": cfg, "prolog": [ins(i) for i in o["pro"]], "epilog": [ins(i) for i in o["epi"]],
             "frame": {k: o["fr"][k] for k in ("final_align", "adj", "local_off", "ex_off", "ex_size", "da_off", "pp_size", "sa_reg", "sa_sp", "sa_sa", "cleanup")}}
 
 
 # ----------------------------------------------------------------------------------------------------------------------
+def o_is_compiler(o):
+    return o["cfg"].get("src") == "compiler"
+
+
 def run_shard(ctx, idx, path, mode, workers, timeout):
     mod = os.path.join(SPEC, "FrameTrace.tla")
     if mode == "report":
@@ -161,7 +214,8 @@ def check_observations(ctx, obs, label):
     uniq, seen = [], set()
     for o in obs:
         c = o["cfg"]
-        k = vlib.digest([[c[f] for f in ("env", "cc", "d", "ls", "la", "cs", "ca", "fp", "calls", "cp")],
+        e = eff(c)
+        k = vlib.digest([c["env"], c["cc"], c["cp"], [e[f] for f in ("ls", "la", "cs", "ca", "fp", "calls")], [sorted(x) for x in e["d"]],
                          o["cc"], o["fd"], o["fr"], o["pro"], o["epi"], o["err"]])
         if k not in seen:
             seen.add(k)
@@ -231,6 +285,8 @@ def check_observations(ctx, obs, label):
         else:
             ctx.violation(f"key={key} :: {what}", rp)
         ctx.add_sample({"failing_key": key, "configurations": len(cases), "example": describe(rep)["cfg"]})
+        if o_is_compiler(rep):
+            ctx.log(f"  (group {key}: the smallest case is a Compiler-derived frame)")
 
 
 def run(ctx):
@@ -253,11 +309,22 @@ def run(ctx):
         raise Broken(f"harness frame random rc={rc}: {err[-600:]}")
     obs2 = vlib.read_ndjson(op2)
     ctx.extra["configs_random"] = len(obs2)
-    for o in obs[:2] + obs2[:1]:
-        ctx.add_sample({"cfg": o["cfg"], "prolog": describe(o)["prolog"], "epilog": describe(o)["epilog"]})
-    check_observations(ctx, obs + obs2, "all")
+    op3 = ctx.path("obs_compiler.ndjson")
+    rc, _, err = vlib.run_harness(ctx, bdir, "frame", ["compiler", op3], timeout=300)
+    if rc != 0:
+        raise Broken(f"harness frame compiler rc={rc}: {err[-600:]}")
+    obs3 = vlib.read_ndjson(op3)
+    ctx.extra["configs_compiler"] = len(obs3)
+    orders = {order_of(o["cfg"]) for o in obs + obs2 + obs3}
+    ctx.extra["distinct_stack_setter_orders"] = len(orders)
+    ctx.log(f"harness: {len(obs)} scripted, {len(obs2)} random, {len(obs3)} Compiler-derived frames; {len(orders)} distinct orders of the stack setters")
+    for o in obs[:2] + obs2[:1] + obs3[:1]:
+        ctx.add_sample(describe(o))
+    check_observations(ctx, obs + obs2 + obs3, "all")
     ctx.assumptions += [
-        "harness/frame.cpp logs FuncFrame accessors and Builder nodes verbatim (mnemonic, operand shapes); it computes nothing",
+        "harness/frame.cpp executes the recorded setter calls and logs FuncFrame accessors and Builder nodes verbatim (mnemonic, operand shapes); it computes nothing",
+        "what a setter sequence promises is FrameMachine!Eff: set_* assigns, update_* takes the maximum, add_dirty adds, set_dirty assigns, set_/reset_ switch an attribute",
+        "Compiler-derived frames: the per-field accessors of the frame after the RA pass (call/local size+alignment, dirty sets, FP, calls) are taken as what the pass declared",
         "stack offsets of stack-passed arguments and arg_stack_size come from FuncDetail (their correctness is C06)",
         "standard conventions (preserved sets, natural alignment, red/home zone, callee-pops) are tabulated in FrameMachine.tla from the ABI documents; "
         "LightCall conventions are asmjit-defined and taken from CallConv",
@@ -277,8 +344,12 @@ def replay(ctx, path):
     recs = vlib.read_ndjson(path)
     bdir = ctx.build("plain", "frame")
     cp, op = ctx.path("replay_cfg.ndjson"), ctx.path("replay_obs.ndjson")
-    vlib.write_ndjson(cp, [r["cfg"] if "cfg" in r else r for r in recs])
-    rc, _, err = vlib.run_harness(ctx, bdir, "frame", ["script", cp, op], timeout=300)
+    cfgs = [r["cfg"] if "cfg" in r else r for r in recs]
+    if any(c.get("src") == "compiler" for c in cfgs):
+        rc, _, err = vlib.run_harness(ctx, bdir, "frame", ["compiler", op], timeout=300)     # the Compiler cases are a fixed list
+    else:
+        vlib.write_ndjson(cp, cfgs)
+        rc, _, err = vlib.run_harness(ctx, bdir, "frame", ["script", cp, op], timeout=300)
     if rc != 0:
         raise Broken(f"harness rc={rc}: {err[-400:]}")
     obs = vlib.read_ndjson(op)
